@@ -1,6 +1,10 @@
 import Ufw.Props.C16
+import Ufw.Tie.Misc
 #print axioms Ufw.Props.C16.octet_eq_bitwise
 #print axioms Ufw.Props.C16.crc_eq_spec
 #print axioms Ufw.Props.C16.buffer_crc_eq_spec
 #print axioms Ufw.Props.C16.crc_append
 #print axioms Ufw.Props.C16.crc_u16_eq_octets
+#print axioms Ufw.Tie.Misc.const_ssize_max
+#print axioms Ufw.Tie.Misc.const_crc_initial
+#print axioms Ufw.Tie.Misc.const_lenp_kinds
